@@ -1,2 +1,3 @@
--- Root of the library: every Props module (and through them Model/Proofs) is built by `lake build`.
+-- Root of the library: every vetted Props module (and through them Model/Proofs) is built by `lake build`.
 import IdenaModel.Props.C13
+import IdenaModel.Props.C06
